@@ -383,7 +383,7 @@ func DiffRes(op Op, m, i Res) []Diff {
 	if m.ETag != "" && m.ETag != i.ETag {
 		out = append(out, Diff{Class: "etag", Where: where + ".etag", Model: m.ETag, Impl: i.ETag})
 	}
-	if op.Kind == "Append" && m.Size != i.Size {
+	if (op.Kind == "Append" || op.Kind == "Get") && m.Size != i.Size {
 		out = append(out, Diff{Class: "content", Where: where + ".size", Model: fmt.Sprint(m.Size), Impl: fmt.Sprint(i.Size)})
 	}
 	if m.UID != i.UID {
